@@ -20,7 +20,6 @@ def state_space_matrices(network: Network, c_values: dict[str, float] = {}, l_va
     def source_and_inductance_incidence_matrix(values: dict[str, float]) -> tuple[np.ndarray, np.ndarray]:
         voltage_source_mapping_all = voltage_source_mapper(network)
         current_source_mapping_all = current_source_mapper(network)
-        source_mapping_all = map.default_source_mapper(network)
         def column(label: str) -> int:
             if label in current_source_mapping_all:
                 return current_source_mapping_all[label]
@@ -32,7 +31,7 @@ def state_space_matrices(network: Network, c_values: dict[str, float] = {}, l_va
         Q = np.vstack((np.hstack( (Qi, np.zeros((Qi.shape[0], Q.shape[1]) ))),
                     np.hstack( (np.zeros((Q.shape[0], Qi.shape[1])), Q) )))
         QS = Q[:,[column(l) for l in current_source_mapping_all.keys + [vs for vs in voltage_source_mapping_all.keys if vs not in values]]]
-        QL = Q[:,[source_mapping_all[l] for l in source_mapping_all if l in l_values]]
+        QL = Q[:,[column(l) for l in values]]
         return QS, QL
     def value_matrix(c_values: dict[str, float], l_values: dict[str, float]) -> np.ndarray:
         return np.vstack((
